@@ -82,6 +82,13 @@ impl GreenToken {
     pub fn text_key(&self) -> Option<TokenKey> {
         self.data().text
     }
+
+    /// Verification hook: the address of this token's allocation (pointer identity).
+    #[cfg(cstree_verif)]
+    #[doc(hidden)]
+    pub fn verif_addr(&self) -> usize {
+        Self::remove_tag(self.ptr).as_ptr() as usize
+    }
 }
 
 impl fmt::Debug for GreenToken {
